@@ -207,7 +207,7 @@ def profile_cases(tier):
                 add(type='twopoint', N=n, ctl=[a, b], prange=pr, T=tl)
                 for m in ([1, 2, 3, 7, 'N'] if thorough or pr == 'std' else [2]):
                     add(type='array', N=n, ctl=[a, b], prange=pr, T=tl, nodes=m)
-            smooths = [10, 20, 50, 4, 1, 100] if thorough else [10, 20, 50]
+            smooths = [10, 20, 50, 4, 1, 100, 0.5, 1.9] if thorough else [10, 20, 50, 1, 0.5]
             pmids = ['default', 'mid', 'near-top', 'near-surface', 'above-surface', 'beyond-top', 'on-layer']
             tl_pairs = pairs if (thorough or pr == 'std') else [(1e-3, 1e-6), (1e-6, 0.3), (0.5, 0.5)]
             for (a, b), pm, s in itertools.product(tl_pairs, pmids if (thorough or pr == 'std') else pmids[:3], smooths):
@@ -386,6 +386,40 @@ def mix_case(case):
     r.observe(mix, mu, act, inact)
     r.nontrivial = len(traces) > 0
     return r
+
+
+def chemfile_case(case):
+    """A tabulated composition (one row per layer, one column per gas): gas g has in layer l the value of row l, column g
+    - also when the table happens to be square."""
+    import os
+    from taurex.data.profiles.chemistry import ChemistryFile
+    r = core.R(case)
+    fx.reset_caches()
+    install_opacities(['H2O', 'CH4'], 'xsec')
+    n, names = case['N'], list(case['gases'])
+    g = fx.rng('c10', 'chemfile', n, len(names))
+    tab = g.uniform(0.01, 1.0, size=(n, len(names)))
+    tab = tab / tab.sum(axis=1)[:, None]
+    path = os.path.join(fx.fresh_dir('c10_chemfile'), 'chem.dat')
+    np.savetxt(path, tab)
+    try:
+        chem = ChemistryFile(gases=list(names), filename=path)
+        chem.initialize_chemistry(n, temperatures(n, 'iso1000'), pressures(n, 'std'), None)
+        mix = np.asarray(chem.mixProfile, dtype=float)
+    except Exception as e:
+        r.check(False, 'mixture-no-exception', 'chemfile/raised/%s' % type(e).__name__, exc=repr(e))
+        return r
+    sq = 'square' if n == len(names) else 'oblong'
+    if r.check(mix.shape == (len(names), n), 'mix-shape', 'chemfile/shape/' + sq, got=mix.shape, want=(len(names), n)):
+        r.eq(mix, tab.T, 'trace-rows', 'chemfile/rows/' + sq, rtol=1e-12)
+        for j, nm in enumerate(names):
+            r.eq(chem.get_gas_mix_profile(nm), tab[:, j], 'get-gas-mix-profile', 'chemfile/get_gas_mix_profile/' + sq,
+                 rtol=1e-12, gas=nm)
+        r.eq(np.asarray(chem.muProfile, float), rchem.mu_profile(names, tab.T), 'mu-value', 'chemfile/mu/' + sq, rtol=1e-9)
+    r.observe(mix)
+    r.nontrivial = True
+    return r
+
 
 
 def mix_cases(tier):
@@ -584,6 +618,9 @@ def explore(ctx):
     ctx.bounds.update(mix_cases=len(mc_), mix_dims={k: len(v) for k, v in dims.items()},
                       mix_deviations=2)
     ctx.run_cases('mix_case', mc_, phase='mix')
+    GL = ['H2O', 'CH4', 'H2', 'He', 'N2', 'CO2']
+    cf = [{'N': n_, 'gases': GL[:k_]} for k_ in (2, 3, 4, 5, 6) for n_ in (2, 3, 4, 5, 6, 7, 10)]
+    ctx.run_cases('chemfile_case', cf, phase='tabulated-composition')
     from mc import rthist
     if ctx.tier == 'thorough':
         hs = rthist.histories(HIST_ALPHABET, 3, HIST_REDUCED, 4)
